@@ -5,8 +5,8 @@ import Gimli.Model.Die
 
 * `die-hdr <endian> <info|types> <section hex> …` → `ok <header>;… <ok|ErrName>`: every unit header
   of the section (`off,len,fmt,ver,asz,abbr,type,hsz,soh,ebuf`)
-* `die-nav <style> <endian> <info|types> <abbrev hex> <section hex> <start|-> …`
-  → `ok <off:depth:tag:children>;… <ok|ErrName>`: the first unit of the section listed by one
+* `die-nav <style> <endian> <info|types[@k]> <abbrev hex> <section hex> <start|-> …`
+  → `ok <off:depth:tag:children>;… <ok|ErrName>`: the first (or, with `@k`, the k-th) unit of the section listed by one
   navigation style (`raw`, `rawskip`, `entry`, `dfs`, `sib`, `tree`, `treeskip`), from the root or from a unit offset
 * `die-at <endian> <info|types> <abbrev hex> <section hex> <off,off,…> …`
   → `ok <entry>|<first dfs>|<tree root>;…` for every offset
@@ -49,11 +49,28 @@ def itemS (e : Entry) : String :=
 
 def traceS (t : Trace) : String := "ok " ++ joinS (t.1.map itemS) ++ " " ++ endS t.2
 
-/-- header of the first unit, its abbreviations -/
-def setup (e : Endian) (s : Sect) (abb sec : Bytes) : Out (UnitHeader × Ctx) := do
-  let (h, _) ← parseUnitHeader e s 0 sec
+/-- `info` / `types`, optionally `@k`: the k-th (0-based) unit of the section -/
+def sectK? (s : String) : Option (Sect × Nat) :=
+  match s.splitOn "@" with
+  | [a] => (sect? a).map (·, 0)
+  | [a, k] => do let x ← sect? a; let k ← k.toNat?; pure (x, k)
+  | _ => none
+
+/-- the `units()` iteration up to the k-th header (its `unitOffset` is its section offset) -/
+def nthHeader (e : Endian) (s : Sect) : Nat → Nat → Bytes → Out UnitHeader
+  | 0, off, bs => do let (h, _) ← parseUnitHeader e s off bs; pure h
+  | k + 1, off, bs => do
+    let (_, after) ← parseUnitHeader e s off bs
+    nthHeader e s k (off + (bs.length - after.length)) after
+
+/-- header of the k-th unit, its abbreviations -/
+def setupN (e : Endian) (s : Sect) (k : Nat) (abb sec : Bytes) : Out (UnitHeader × Ctx) := do
+  let h ← nthHeader e s k 0 sec
   let abbrevs ← abbreviationsAt abb h.abbrevOffset
   pure (h, { enc := h.enc, abbrevs := abbrevs })
+
+/-- header of the first unit, its abbreviations -/
+def setup (e : Endian) (s : Sect) (abb sec : Bytes) : Out (UnitHeader × Ctx) := setupN e s 0 abb sec
 
 def specS (s : Spec) : String :=
   toString s.name ++ "/" ++ toString s.form.code ++ "/" ++ toString s.implicitConst
@@ -75,10 +92,10 @@ def handle (op : String) (args : List String) : Option String :=
     let r := unitHeaders e s (sec.length + 1) 0 sec
     pure ("ok " ++ joinS (r.1.map hdrS) ++ " " ++ endS r.2)
   | "die-nav", style :: e :: s :: ah :: h :: start :: _ => do
-    let e ← endian? e; let s ← sect? s; let abb ← parseHex ah; let sec ← parseHex h
+    let e ← endian? e; let (s, k) ← sectK? s; let abb ← parseHex ah; let sec ← parseHex h
     let start ← if start == "-" then some none else start.toNat?.map some
     let r : Out String := do
-      let (hd, ctx) ← setup e s abb sec
+      let (hd, ctx) ← setupN e s k abb sec
       let off := start.getD hd.rootOffset
       let fuel := sec.length + 2
       match style with
@@ -102,10 +119,10 @@ def handle (op : String) (args : List String) : Option String :=
       | .panic w => "panic " ++ w
       | .diverge => "diverge")
   | "die-at", e :: s :: ah :: h :: offs :: _ => do
-    let e ← endian? e; let s ← sect? s; let abb ← parseHex ah; let sec ← parseHex h
+    let e ← endian? e; let (s, k) ← sectK? s; let abb ← parseHex ah; let sec ← parseHex h
     let offs ← if offs == "-" then some [] else (offs.splitOn ",").mapM String.toNat?
     let r : Out String := do
-      let (hd, ctx) ← setup e s abb sec
+      let (hd, ctx) ← setupN e s k abb sec
       let one (o : Nat) : String :=
         let a := outS itemS (hd.entry ctx o)
         let b := outS (fun (x : Option Entry × Cursor) => match x.1 with | some en => itemS en | none => "none")
